@@ -17,7 +17,7 @@ ASSUMPTIONS = [
     "the order of the returned lists is not specified by the manual and not compared",
     "adding a member twice may keep one or two entries (unspecified); whichever the op shows is taken into the model and must then stay consistent",
     "deleting a non-member may be ignored or refused with ValueError/KeyError/LookupError (unspecified); the bookkeeping must not change",
-    "status 'unknown' on either side of a solve comparison is counted, not judged",
+    "status 'unknown' or the documented rank-deficiency ValueError of solvers.lp on only one side of a solve comparison is counted, not judged",
 ]
 STEPS = ["add", "del-member", "del-nonmember", "add-twice", "objective", "solve"]
 REQUIRED_COUNTERS = ["step." + s for s in STEPS] + [
@@ -91,7 +91,7 @@ def run(ctx):
                     I[k, k] = 1.0; I[len(v) + k, k] = -1.0
                 put(I * v <= R, "[I;-I]*v%d <= 10" % i, ["box"])
         ncons = rng.randint(4, 7)
-        kinds = ["lin1", "lin2", "lin2", "idx2", "eq1", "eq2", "abs2", "max1", "const", "const", "sum2", "lin3"]
+        kinds = ["lin1", "lin2", "lin2", "idx2", "eq1", "eq2", "abs2", "max1", "const", "sum2", "lin3", "lin1"]
         for _ in range(ncons):
             k = rng.choice(kinds)
             i, j = rng.sample(range(nv), 2)
@@ -260,7 +260,8 @@ def run(ctx):
                         mechs.add("constant-only-constraint"); ctx.count("mech.constant-only-constraint")
                     p.addconstraint(pool[i][0]); model.add(pool[i][0])
                 elif kind == "del-member":
-                    d = rng.choice(members)
+                    nonbox = [m for m in members if not any(m is q_ and "box" in tg for q_, _, tg in pool)]
+                    d = rng.choice(nonbox) if nonbox and rng.random() < 0.7 else rng.choice(members)
                     hist.append("p.delconstraint(%s)" % d.name)
                     dv = d.variables()
                     objv = as_function(model.obj).variables()
@@ -323,7 +324,12 @@ def run(ctx):
                         ctx.count("solve.exception." + a[1])
                     c.check()
                     unk = (a[0] == "status" and a[1] == "unknown") or (b[0] == "status" and b[1] == "unknown")
-                    if unk and a[:2] != b[:2]:
+                    # solvers.lp documents ValueError for rank-deficient problems; whether a singular KKT matrix
+                    # is noticed depends on the order of rows/columns, so a one-sided ValueError is not judged
+                    rank = (a[:2] == ("exc", "ValueError")) != (b[:2] == ("exc", "ValueError"))
+                    if rank and a[:2] != b[:2]:
+                        ctx.count("solve.rank-error-one-side")
+                    elif unk and a[:2] != b[:2]:
                         ctx.count("solve.unknown-one-side")
                     elif a[:2] != b[:2]:
                         c.fail("solve:edited-op-differs-from-fresh-op", "edited op: %r, fresh op from the model: %r" % (a, b))
@@ -350,8 +356,14 @@ def run(ctx):
                 for f in c.failed[nf:]:
                     if f["key"] == "delconstraint:variables-differ-from-model":
                         f["key"] = "delconstraint:variable-not-collected"
-                    elif f["key"].endswith("variables-differ-from-model") and kind != "del-member":
-                        pass
+                        try:
+                            want = model.variables(as_function(model.obj))
+                            objv = as_function(model.obj).variables()
+                            extra = [v for v in p.variables() if id(v) not in want]
+                            if extra and all(p._variables[v]["o"] and not any(w is v for w in objv) for v in extra):
+                                f["key"] = "delconstraint:stale-objective-flag-keeps-variable"
+                        except Exception:
+                            pass
                 return
         c.cls("".join(sorted(set(k[0] + k[-1] for k in kinds_seen))), "+".join(sorted(mechs)), how)
         if c.k < 2:
